@@ -340,4 +340,44 @@ def C20(tier, seed):
                            "against floor/ceil formulas of the spec"}
 
 
+# Situations (catalogue in WpTrace.tla) that a check's recorded executions must contain: a run without them would be
+# vacuous for the predicates they are the antecedents of (tool error, never a pass).  Thresholds are far below what the
+# drivers produce (a tenth or less of the quick tier's counts) so that they never fire on a healthy run.
+MUST_HIT = {
+    "C01": {"swap.crosses_a_tick": 5, "swap.steps>=2": 5, "liq.decrease_to_zero": 20, "liq.deinitializes_a_tick": 20, "liq.bound_shared_with_other_position": 20,
+            "collect_fees.nonzero": 10, "collect_protocol_fees.nonzero": 3, "swap.exact_out": 10, "liq.price_below_range": 20, "liq.price_above_range": 20},
+    "C03": {"swap.explicit_limit": 30, "swap.uses_less_than_specified": 20, "swap.threshold_equals_realised": 20, "swap.exact_out": 20, "twohop.exact_out": 5,
+            "twohop.explicit_limit": 5, "twohop.mixed_direction": 5, "swap.full_range_only_pool": 5},
+    "C05": {"swap.crosses_a_tick.a_to_b": 5, "swap.crosses_a_tick.b_to_a": 5, "liq.initializes_a_tick": 20, "liq.deinitializes_a_tick": 20,
+            "liq.same_range_as_other_position": 10, "liq.dynamic_tick_array": 20, "liq.fixed_tick_array": 20, "liq.tick_net_becomes_zero_but_stays_initialized": 3},
+    "C06": {"swap.steps>=2": 10, "swap.step_with_zero_liquidity": 5, "swap.protocol_rate_zero": 10, "collect_protocol_fees.nonzero": 3, "swap.step_stops_short_of_target": 20,
+            "swap.exact_out": 10, "twohop.leg_crosses_a_tick": 2},
+    "C07": {"swap.crosses_a_tick": 10, "liq.credits_fees": 20, "update_fees.credits_fees": 3, "liq.lower_is_others_upper": 20, "liq.initializes_a_tick_at_or_below_price": 10,
+            "liq.range_changed": 3},
+    "C08": {"liq.price_below_range": 30, "liq.price_in_range": 30, "liq.price_above_range": 30, "liq.first_deposit": 20, "liq.partial_decrease": 20, "liq.decrease_to_zero": 30,
+            "liq.range_changed": 3},
+    "C10": {"swap.crosses>=3_ticks": 50, "swap.crosses_ticks_of_two_arrays": 50, "swap.ends_on_initialized_tick.a_to_b": 50, "swap.ends_on_initialized_tick.b_to_a": 50,
+            "swap.starts_on_initialized_tick_shifted": 50, "swap.starts_on_initialized_tick_unshifted": 20},
+    "C11": {"reward.interval_accrues": 10, "reward.zero_elapsed_time": 50, "reward.two_or_more_rewards": 50, "liq.credits_rewards": 5, "reward.swap_crosses_tick_with_rewards": 5,
+            "collect_reward.index>=1": 3},
+    "C12": {"liq.mixed_array_encodings": 5, "liq.deinitializes_a_tick": 20, "liq.initializes_a_tick": 10},
+    "C14": {"af.reference_decayed_nonzero": 3, "af.reference_reset_after_an_hour": 10, "af.reference_kept_inside_filter_period": 50, "af.reference_reset_beyond_decay": 3,
+            "af.accumulator_at_maximum": 20, "af.step_spans_several_groups": 20, "af.skipped_step": 30, "af.major_swap": 10, "af.negative_tick_group": 30},
+    "C16": {"swap.input_mint_has_transfer_fee": 30, "swap.output_mint_has_transfer_fee": 30, "liq.transfer_fee_mint": 50},
+    "C17": {"twohop.exact_out": 10, "twohop.explicit_limit": 10, "twohop.mixed_direction": 10, "twohop.same_direction": 10, "twohop.leg_crosses_a_tick": 3},
+    "C20": {"swap.adaptive_fee_pool": 30, "swap.crosses_a_tick": 5, "swap.input_mint_has_transfer_fee": 10, "af.skipped_step": 10},
+}
+
+
+def _with_must_hit(pid, f):
+    def g(tier, seed):
+        plan = f(tier, seed)
+        mh = dict(MUST_HIT.get(pid, {}))
+        mh.update(plan.get("must_hit", {}))
+        plan["must_hit"] = mh
+        return plan
+    return g
+
+
 PLANS = {"C20": C20, "C01": C01, "C02": C02, "C03": C03, "C04": C04, "C10": C10, "C14": C14, "C15": C15, "C16": C16, "C17": C17, "C18": C18, "C19": C19, "C05": C05, "C06": C06, "C07": C07, "C11": C11, "C12": C12, "C13": C13, "C08": C08, "C09": C09}
+PLANS = {k: _with_must_hit(k, v) for k, v in PLANS.items()}
